@@ -148,7 +148,18 @@ type faultProp struct {
 func (p *faultProp) ID() string     { return p.id }
 func (p *faultProp) BatchSize() int { return 60 }
 func (p *faultProp) Rule() string {
-	return "case = (plan shape, instant|35-step window, GOMAXPROCS 4|16, fault kind, fault address); the address is the n-th call of a storage callback kind on a series of a select, taken from a fault-free calibration run of the same case (quick: addresses drawn by the seeded PRNG; thorough: all addresses in order); non-trivial iff the injected fault actually fired; distinct by (shape, window, procs, kind, address)"
+	base := "case = (plan shape, instant|35-step window, GOMAXPROCS 4|16, fault kind, fault address); the address is the n-th call of a storage callback kind (Querier, Select, series-set, Labels, Iterator, Seek, Next, At, querier Close) on a series of a select, taken from a fault-free calibration run of the same case (quick: addresses drawn by the seeded PRNG; thorough: all addresses in order); non-trivial iff the injected fault actually fired; distinct by (shape, window, procs, kind, address)"
+	switch p.id {
+	case "C13":
+		return base + "; kinds: panic with a runtime.Error, an error value, a string, on native and fallback plans; preceded by a fault-free grid of hostile parameters x 5 degenerate datasets compared with the reference"
+	case "C14":
+		return base + "; kinds: cancel (callback returns), block (callback waits for its context), error, panic, none, and hook-cancel (the cancellation arrives at the n-th visit of a goroutine hand-off point, n from the calibration's visit count); for 5 of 7 cancel/block cases the cancellation is Cancel()/Close()/double Cancel() of the query object from another goroutine, optionally after an early Cancel() before Exec; followed by race-build rounds of Cancel/Close racing Exec"
+	case "C15":
+		return base + "; kinds: plain storage error and an error that also wraps context.DeadlineExceeded; a quarter of the cases inject a second fault at another address"
+	case "C17":
+		return base + "; kinds: none, error, panic, cancel (context or query object, incl. while queriers are being closed), and sequences of queries over one shared store"
+	}
+	return base
 }
 
 const faultSeqMax = 2600 // upper bound of addresses per (shape, window, procs) explored sequentially in thorough
